@@ -140,7 +140,8 @@ def Req.ok (env : Env) (msgType : MsgType) (signers : List Addr) : Req → Bool
 that changes nothing (`Scope.Equals`: same owners up to order, same other fields) asks for no
 signature. -/
 def writeScopeReq (existing : Option Scope) (proposed : Scope) (specRoles : List Role) : Req :=
-  -- `specRoles`: the roles required by the specification of the EXISTING (stored) scope
+  -- `specRoles`: the roles required by the governing specification: that of the EXISTING
+  -- (stored) scope — or, if it no longer exists, the one the proposed scope names
   match existing with
   | none => .addrs []
   | some ex =>
